@@ -4,7 +4,10 @@
 
 #include "synth.hpp"
 
+#include <csignal>
+#include <map>
 #include <sstream>
+#include <tuple>
 
 namespace e1 {
 
@@ -340,6 +343,375 @@ inline void check_slots_and_walk(
                 o.fail("walk: " + w.describe_tuple(m, t) + " reads " +
                        w.name_pointer(m, reinterpret_cast<void*>(cell)) +
                        ", model says " + w.name_pointer(m, expected));
+            }
+        }
+    }
+}
+
+// ---------------------------------------------------------------------------
+// C17: the update report.  The model enumerates, per dimension, the distinct
+// "applicable-set signatures" of the classes acceptable at that position
+// (dispatch depends on the classes of a tuple only through them), which
+// keeps the enumeration exact and small.
+
+struct ReportModel {
+    bool not_implemented = false, ambiguous = false;
+    bool concrete_not_implemented = false, concrete_ambiguous = false;
+    std::size_t cells = 0;
+};
+
+inline ReportModel model_report(const Spec& s) {
+    ReportModel r;
+    for (auto& m : s.meths) {
+        std::size_t arity = m.vp.size();
+        // signature (bitmask over definitions) -> has a concrete class
+        std::vector<std::vector<std::pair<std::uint64_t, bool>>> dims(arity);
+        for (std::size_t i = 0; i < arity; ++i) {
+            for (int c : bits(s.desc[m.vp[i]])) {
+                std::uint64_t sig = 0;
+                for (std::size_t d = 0; d < m.defs.size(); ++d) {
+                    if (s.isa(c, m.defs[d].cls[i])) {
+                        sig |= 1ull << d;
+                    }
+                }
+                bool found = false;
+                for (auto& g : dims[i]) {
+                    if (g.first == sig) {
+                        g.second = g.second || !s.abstract_[c];
+                        found = true;
+                    }
+                }
+                if (!found) {
+                    dims[i].push_back({sig, !s.abstract_[c]});
+                }
+            }
+        }
+        std::size_t cells = 1;
+        for (auto& d : dims) {
+            cells *= d.size();
+        }
+        if (arity > 1) {
+            r.cells += cells;
+        }
+        std::vector<std::size_t> idx(arity, 0);
+        for (std::size_t k = 0; k < cells; ++k) {
+            std::uint64_t mask = ~0ull;
+            bool concrete = true;
+            std::size_t rem = k;
+            for (std::size_t i = 0; i < arity; ++i) {
+                auto& g = dims[i][rem % dims[i].size()];
+                rem /= dims[i].size();
+                mask &= g.first;
+                concrete = concrete && g.second;
+            }
+            std::vector<int> S;
+            for (std::size_t d = 0; d < m.defs.size(); ++d) {
+                if (mask >> d & 1) {
+                    S.push_back(int(d));
+                }
+            }
+            Sel sel = select(s, m, S);
+            if (sel.kind == K_NONE) {
+                r.not_implemented = true;
+                r.concrete_not_implemented |= concrete;
+            } else if (sel.kind == K_AMBIG) {
+                r.ambiguous = true;
+                r.concrete_ambiguous |= concrete;
+            }
+        }
+    }
+    return r;
+}
+
+inline void check_report(
+    World& w, Outcome& o, const UpdateOutcome& up, const ReportModel& rm) {
+    auto& rep = up.report;
+    auto flag = [&](const char* name, std::size_t got, bool want) {
+        if ((got != 0) != want) {
+            o.fail(std::string("report-") + name + ": report." + name + " = " +
+                   std::to_string(got) + ", model says " +
+                   (want ? "non-zero" : "zero"));
+        }
+    };
+    flag("not_implemented", rep.not_implemented, rm.not_implemented);
+    flag("ambiguous", rep.ambiguous, rm.ambiguous);
+    flag("concrete_not_implemented", rep.concrete_not_implemented,
+         rm.concrete_not_implemented);
+    flag("concrete_ambiguous", rep.concrete_ambiguous, rm.concrete_ambiguous);
+    if (rep.cells != rm.cells) {
+        o.fail("report-cells: report.cells = " + std::to_string(rep.cells) +
+               ", model says " + std::to_string(rm.cells));
+    }
+    if (up.comp) {
+        std::size_t built = 0;
+        for (auto& cm : up.comp->methods) {
+            if (cm.arity() > 1) {
+                built += cm.dispatch_table.size();
+            }
+        }
+        if (rep.cells != built) {
+            o.fail("report-cells-built: report.cells = " +
+                   std::to_string(rep.cells) + " but " +
+                   std::to_string(built) +
+                   " multi-method dispatch cells were built");
+        }
+    }
+}
+
+// ---------------------------------------------------------------------------
+// Observation of a world through the real resolve, independent of the
+// registration order: methods are named by (shape, key), definitions by
+// their pool function.
+
+struct Obs {
+    // (shape, key) -> per tuple (enumeration order): fn >= 0, -1 NONE,
+    // -2 AMBIGUOUS, -3 anything else, -4 error raised
+    std::map<std::pair<int, int>, std::vector<int>> disp;
+    // (shape, key, fn) -> same coding
+    std::map<std::tuple<int, int, int>, int> next;
+};
+
+inline int classify_pointer(MethInst& mi, void* p) {
+    if (p == mi.desc->info->not_implemented) {
+        return -1;
+    }
+    if (p == mi.desc->info->ambiguous) {
+        return -2;
+    }
+    for (auto& d : mi.ms->defs) {
+        if (p == mi.desc->defs[d.fn]) {
+            return d.fn;
+        }
+    }
+    return -3;
+}
+
+inline Obs observe(World& w) {
+    Obs obs;
+    for (std::size_t m = 0; m < w.meths.size(); ++m) {
+        auto& mi = w.meths[m];
+        auto key = std::make_pair(mi.ms->shape, mi.ms->key);
+        auto& v = obs.disp[key];
+        Tuples tu(w.spec, *mi.ms);
+        while (tu.next()) {
+            auto args = w.make_args(*mi.ms, tu.t.data());
+            void* got = nullptr;
+            ErrorRec e = guarded([&] {
+                got = mi.desc->resolve(args.objs, args.ints, nullptr);
+            });
+            v.push_back(
+                e.kind != ErrorRec::none ? -4 : classify_pointer(mi, got));
+        }
+        for (std::size_t d = 0; d < mi.ms->defs.size(); ++d) {
+            obs.next[{mi.ms->shape, mi.ms->key, mi.ms->defs[d].fn}] =
+                classify_pointer(mi, mi.next_store[d]);
+        }
+    }
+    return obs;
+}
+
+inline std::string code_name(int c) {
+    switch (c) {
+    case -1:
+        return "not_implemented";
+    case -2:
+        return "ambiguous";
+    case -3:
+        return "foreign pointer";
+    case -4:
+        return "error";
+    default:
+        return "pool fn " + std::to_string(c);
+    }
+}
+
+// first difference between two observations, "" when equal
+inline std::string diff_obs(const Obs& a, const Obs& b) {
+    for (auto& [key, va] : a.disp) {
+        auto it = b.disp.find(key);
+        if (it == b.disp.end() || it->second.size() != va.size()) {
+            return "method set differs";
+        }
+        for (std::size_t i = 0; i < va.size(); ++i) {
+            if (va[i] != it->second[i]) {
+                return std::string("method ") +
+                    shape_table()[key.first].str + "/" +
+                    std::to_string(key.second) + " tuple #" +
+                    std::to_string(i) + ": " + code_name(va[i]) + " vs " +
+                    code_name(it->second[i]);
+            }
+        }
+    }
+    for (auto& [key, na] : a.next) {
+        auto it = b.next.find(key);
+        if (it == b.next.end()) {
+            return "definition set differs";
+        }
+        if (it->second != na) {
+            return std::string("next of method ") +
+                shape_table()[std::get<0>(key)].str + "/" +
+                std::to_string(std::get<1>(key)) + " pool fn " +
+                std::to_string(std::get<2>(key)) + ": " + code_name(na) +
+                " vs " + code_name(it->second);
+        }
+    }
+    return "";
+}
+
+// ---------------------------------------------------------------------------
+// C02: every NONE / AMBIGUOUS tuple is reported accurately
+
+struct ErrorStats {
+    bool nonvirtual_or_multi = false; // erroring method has an N parameter or
+                                      // arity >= 2
+    int error_calls = 0;
+    int forked = 0;
+};
+
+// child side of the "handler returns => abort" check
+inline void sigabrt_probe(int) {
+    _exit(g_log.empty() ? 42 : 43);
+}
+
+inline void check_errors(
+    World& w, Outcome& o, ErrorStats& es, int budget_per_method,
+    int fork_budget) {
+    const Spec& s = w.spec;
+    Config& cfg = w.cfg;
+    for (std::size_t m = 0; m < w.meths.size() && o.ok; ++m) {
+        auto& mi = w.meths[m];
+        const MethSpec& ms = *mi.ms;
+        const char* str = shape_table()[ms.shape].str;
+        std::size_t arity = ms.vp.size();
+        // a tuple that dispatches normally, for the "later calls still
+        // dispatch correctly" clause
+        std::vector<int> good;
+        Sel good_sel{K_NONE, -1};
+        {
+            Tuples tu(s, ms);
+            while (tu.next()) {
+                Sel sel = dispatch(s, ms, tu.t.data());
+                if (sel.kind == K_DEF) {
+                    good = tu.t;
+                    good_sel = sel;
+                    break;
+                }
+            }
+        }
+        Tuples tu(s, ms);
+        int done = 0;
+        while (tu.next() && o.ok && done < budget_per_method) {
+            const int* t = tu.t.data();
+            Sel sel = dispatch(s, ms, t);
+            if (sel.kind == K_DEF) {
+                continue;
+            }
+            ++done;
+            ++es.error_calls;
+            es.nonvirtual_or_multi |= arity >= 2 || strchr(str, 'N') != nullptr;
+            auto args = w.make_args(ms, t, done);
+            int want = sel.kind == K_NONE ? resolution_error::no_definition
+                                          : resolution_error::ambiguous;
+            g_log.clear();
+            int before = g_error_deliveries;
+            ErrorRec e = guarded(
+                [&] { mi.desc->call(args.objs, args.ints, nullptr); });
+            std::string where = w.describe_tuple(m, t);
+            if (!g_log.empty()) {
+                o.fail("error-body-ran: " + where +
+                       " is unresolvable but a definition body ran");
+                break;
+            }
+            bool right_kind = cfg.call_error_route
+                ? e.kind == ErrorRec::call_error
+                : e.kind == ErrorRec::resolution;
+            if (!right_kind) {
+                o.fail("error-kind: " + where +
+                       " should raise a resolution error, got " + err_name(e));
+                break;
+            }
+            if (!cfg.throw_facet && g_error_deliveries - before != 1) {
+                o.fail("error-deliveries: " + where + ": handler entered " +
+                       std::to_string(g_error_deliveries - before) + " times");
+                break;
+            }
+            if (e.status != want) {
+                o.fail("error-status: " + where + " reported status " +
+                       std::to_string(e.status) + ", expected " +
+                       std::to_string(want));
+                break;
+            }
+            if (e.arity != arity) {
+                o.fail("error-arity: " + where + " reported arity " +
+                       std::to_string(e.arity) + ", the method has " +
+                       std::to_string(arity) + " virtual parameters");
+                break;
+            }
+            for (std::size_t i = 0; i < arity; ++i) {
+                if (e.types[i] != w.objs[t[i]].id) {
+                    o.fail("error-types: " + where + ": types[" +
+                           std::to_string(i) + "] = " +
+                           std::to_string(e.types[i]) +
+                           " is not the dynamic type id of virtual argument " +
+                           std::to_string(i) + " (" +
+                           std::to_string(w.objs[t[i]].id) + ")");
+                    break;
+                }
+            }
+            if (!o.ok) {
+                break;
+            }
+            // later calls still dispatch correctly
+            if (!good.empty()) {
+                auto gargs = w.make_args(ms, good.data(), 77);
+                g_log.clear();
+                int ret = 0;
+                ErrorRec ge = guarded([&] {
+                    ret = mi.desc->call(gargs.objs, gargs.ints, nullptr);
+                });
+                int fn = ms.defs[good_sel.def].fn;
+                if (ge.kind != ErrorRec::none || g_log.size() != 1 ||
+                    g_log[0].def != fn || ret != def_return(fn)) {
+                    o.fail("error-aftermath: after the error on " + where +
+                           " a resolvable call no longer dispatches correctly");
+                    break;
+                }
+            }
+            // handler returns => abort, in a forked child
+            if (es.forked < fork_budget && !cfg.throw_facet) {
+                ++es.forked;
+                fflush(nullptr);
+                pid_t pid = fork();
+                if (pid == 0) {
+                    int devnull = open("/dev/null", O_WRONLY);
+                    if (devnull >= 0) {
+                        dup2(devnull, 2);
+                    }
+                    signal(SIGABRT, sigabrt_probe);
+                    cfg.set_handler_mode(1);
+                    g_log.clear();
+                    try {
+                        mi.desc->call(args.objs, args.ints, nullptr);
+                    } catch (...) {
+                        _exit(44);
+                    }
+                    _exit(g_log.empty() ? 45 : 46);
+                }
+                int status = 0;
+                waitpid(pid, &status, 0);
+                int code = WIFEXITED(status) ? WEXITSTATUS(status) : -1;
+                if (code != 42) {
+                    std::string what = code == 43 || code == 46
+                        ? "a definition body ran"
+                        : code == 45 ? "the call returned to the caller"
+                        : code == 44 ? "an exception escaped"
+                                     : "the child ended with status " +
+                                std::to_string(status);
+                    o.fail("error-no-abort: " + where +
+                           ": the handler returned and instead of aborting " +
+                           what);
+                    break;
+                }
             }
         }
     }
